@@ -1,4 +1,5 @@
 import AcraModel.AuditLog.ChainLemmas
+import AcraModel.AuditLog.ChainAlter
 import AcraModel.AuditLog.ParseLemmas
 import AcraModel.Crypto.Box
 /-!
@@ -191,16 +192,14 @@ theorem render_parse_split2_counterexample :
 
 /-! ## alterations are detected -/
 
-/-- the honest entry for data `d` written in calculator state `st` -/
-def entryAt (c : CryptoOps) (st : Calc) (d : Bytes) (isEnd : Bool) : Entry :=
-  ⟨d, tagOf c st d, st.prev.isNone, isEnd⟩
-
-/-- collision freedom on the two values at hand: the HMAC values of calculator states `a`, `b` on
-data `x`, `y` do not collide under SHA-256, and the two HMAC inputs do not collide under HMAC -/
-structure NoCollision (c : CryptoOps) (a : Calc) (x : Bytes) (b : Calc) (y : Bytes) : Prop where
-  sha : c.sha256 (a.ic c x) = c.sha256 (b.ic c y) → a.ic c x = b.ic c y
-  mac : c.hmac a.key (x ++ a.prev.getD []) = c.hmac b.key (y ++ b.prev.getD []) →
-    a.key = b.key ∧ x ++ a.prev.getD [] = y ++ b.prev.getD []
+/-! `entryAt c st d isEnd` (the honest entry for data `d` written in calculator state `st`) and
+`NoCollision c a x b y` (collision freedom on the two values at hand: the HMAC values of calculator states
+`a`, `b` on data `x`, `y` do not collide under SHA-256, and the two HMAC inputs do not collide under HMAC)
+are defined in `AuditLog/ChainAlter.lean`, together with `honestLines c key items` (the log of an honest
+history), `pstate c key items` (the producer's calculator after it) and `vcal c key items` (the
+calculator the *verifier* holds after it: the producer's when mid-chain – `vcal_of_mid` –, the fresh
+one at the start of the log – `vcal_nil` –, and after the last entry of a chain that chain's calculator
+one step on – `vcal_snoc` –, because the verifier restarts only when it sees `chain=new`). -/
 
 /-- **Tamper, general form.** After any honest prefix (with restarts), a line that is not marked as a
 chain start and whose tag was made in calculator state `st'` for data `d'` is rejected at its position
